@@ -109,16 +109,44 @@ def scan_trusted(text):
 
 def run_unit(repo, unit, contracts_dir, workdir, rlimit=None, extra_args=(), seed=None, use_baseline=True):
     """Returns dict: status in {ok, violation, undecided}, details..."""
+    res = _run_unit(repo, unit, contracts_dir, workdir, rlimit, extra_args, seed, use_baseline)
+    if res.get('degraded') is not None:
+        if res['status'] == 'ok':
+            res['reason'] = 'verified without %d annotation(s) whose anchors are gone: %s' % (len(res['degraded']), '; '.join(res['degraded'])[:400])
+        else:
+            # without the lost hints a failed proof says nothing: undecided, exactly as before the second attempt
+            why = res['status'] if res['status'] == 'violation' else res['reason'][:200]
+            res['status'] = 'undecided'
+            res['reason'] = '%s (second attempt without the lost annotations did not verify: %s)' % (res['lost_anchor'], why if why != 'violation' else ', '.join(res.get('failing_functions', [])))
+            res['failures'] = []
+    return res
+
+
+def _run_unit(repo, unit, contracts_dir, workdir, rlimit=None, extra_args=(), seed=None, use_baseline=True):
     t0 = time.time()
     res = dict(unit=unit, engine='verus', status='undecided', reason='', functions=[], failures=[],
                trusted=[], rewrites=[], extracted=[], smt_ms=0, wall_s=0.0)
     tmpl = os.path.join(contracts_dir, unit + '.v.rs')
+    lost = None
     try:
         asm = assemble(repo, tmpl)
     except ScanError as e:
-        res['reason'] = 'extraction: %s' % e
-        res['wall_s'] = time.time() - t0
-        return res
+        lost = 'extraction: %s' % e
+        asm = None
+        if 'lost anchor' in str(e) and 'signature' not in str(e) and 'file ' not in str(e):
+            # second attempt: drop the ghost blocks / loop annotations / call-shape substitutions whose
+            # anchors are gone.  If everything still verifies, the proof stands (fewer hints, same
+            # obligations); if not, the unit is undecided as before - never a violation.
+            try:
+                asm = assemble(repo, tmpl, degrade=True)
+            except ScanError:
+                asm = None
+        if asm is None:
+            res['reason'] = lost
+            res['wall_s'] = time.time() - t0
+            return res
+        res['degraded'] = list(asm.degraded)
+        res['lost_anchor'] = lost
     text = asm.text() + CANARY
     os.makedirs(workdir, exist_ok=True)
     path = os.path.join(workdir, unit + '.rs')
